@@ -422,7 +422,7 @@ func TestVerif_C15_laws(t *testing.T) {
 		}
 		return
 	}
-	verifkit.RapidSetup(30000, 1000000)
+	verifkit.RapidSetup(40000, 1000000)
 	rapid.Check(t, func(rt *rapid.T) {
 		c := c15GenLaw().Draw(rt, "case")
 		c15LawExclude(&c, col)
